@@ -113,9 +113,15 @@ fn run_property(prop: &str, tier: Tier, rep: &mut Report) -> Plan {
             Plan { rule: input_rule, assumptions: vec![TRUST, BOUND_INPUT, "open regions (inner bytes of list values, 65-byte SEC1 keys, list under the other scheme's key name) are counted, not judged"] }
         }
         "C03" => {
-            text::run_c03_sweeps(tier, rep);
-            let cases = input::structural_cases(Tier::Quick);
-            input::run_cases(&cases, rep, |c| c.devs <= 1 && c.label.contains(":minimal"));
+            if !b {
+                // the short-input sweeps and the decoder cases exercise code that does not depend on the
+                // cargo features that distinguish configuration B
+                text::run_c03_sweeps(tier, rep);
+                let cases = input::structural_cases(Tier::Quick);
+                input::run_cases(&cases, rep, |c| c.devs <= 1 && c.label.contains(":minimal"));
+            } else {
+                text::c03_structured_big(rep);
+            }
             if tier == Tier::Thorough {
                 let cases = input::authenticity_cases(Tier::Quick);
                 input::run_cases(&cases, rep, |_| false);
@@ -128,7 +134,9 @@ fn run_property(prop: &str, tier: Tier, rep: &mut Report) -> Plan {
                 run_hist(tier, &["k256", "ed", "comb-ed", "fault-ed"], true, rep);
             }
             replay::cross_scheme_histories(rep);
-            rep.require_class("c03:byte-strings");
+            if !b {
+                rep.require_class("c03:byte-strings");
+            }
             Plan { rule: "all byte strings / texts up to the reported length, every C02 case, every transition of the HIST graph; every accessor swept on every record handed out; oracle = no unwinding panic", assumptions: vec![TRUST, "overflow checks and debug assertions are on for enr, alloy-rlp, bytes, base64, hex", "UB that does not trap is not monitored"] }
         }
         "C04" => {
